@@ -24,6 +24,8 @@ SEMANTIC = (
     'loop invariant not satisfied',
     'could not prove termination',
     'failed precondition',
+    'unable to prove post-condition of closure',
+    'post-condition of closure',
     # a function that was not recursive (the unchanged tree verifies without a measure) now calls itself: the termination obligation,
     # trivially discharged before, fails
     'recursive function must have a decreases clause',
